@@ -15,6 +15,7 @@ import (
 
 	"github.com/anishathalye/porcupine"
 	lru "github.com/hashicorp/golang-lru/simplelru"
+	dsq "github.com/ipfs/go-datastore/query"
 	"github.com/libp2p/go-libp2p/core/peer"
 	"github.com/libp2p/go-libp2p/core/peerstore"
 	"github.com/libp2p/go-libp2p/p2p/host/peerstore/pstoremem"
@@ -56,14 +57,37 @@ import (
 //     newer than what that sweep's Query snapshot showed as expired makes
 //     (k,p) uncertain {absent, current} from that instant;
 //   - a Get one of whose own datastore operations got an injected error may
-//     omit anything (it still must not return a forbidden peer).
+//     omit anything (it still must not return a forbidden peer);
+//   - caller cancellation (generator: a drawn share of the operations runs
+//     under a context that the scheduler may cancel at any quiescent point
+//     while the call is in flight; for these calls the datastore hands the
+//     results of a scan over one entry per scheduler step, so "in the middle
+//     of a load" is a reachable instant; the datastore itself keeps delivering,
+//     it never fails because of the cancellation unless the scheduler lets a
+//     parked operation observe it). An operation whose context was cancelled
+//     before it returned may fail with that context's error and is then
+//     treated like any failed operation (a failed add is uncertain, a failed
+//     query says nothing); any other error, or a context error without a
+//     cancellation, stays add-error/get-error. A cancelled call that reports
+//     success is judged in full, and so is every later call: the clause "is
+//     returned by every later provider query for that key" has no exception
+//     for queries that follow an abandoned one (lost-provider /
+//     not-linearizable on the later query).
+//     Not in the registered space (opt-in, VERIF_C07_CTX_ITER=1): a datastore
+//     whose scan iterator itself gives up when the caller's context is done
+//     (one Result carrying the context's error, then end of scan). The query
+//     whose scan was cut short is relaxed like any query with a failed read;
+//     later queries are not — and the unchanged tree fails that (it caches
+//     the truncated set): findings/C07-aborted-scan-caches-truncated-set.json.
 
 func init() {
 	common := []string{"lock_contended", "lock_yield", "time_advance",
 		"probe_cache_eviction", "probe_miss_load", "probe_expired_on_read", "probe_lazy_delete", "probe_sweep_delete",
 		"probe_readd_raced_sweep", "probe_restart_survivor", "probe_inflight_at_crash", "probe_clean_restart", "probe_crash_restart",
 		"probe_close_concurrent", "probe_closed_call", "probe_boundary_age", "probe_malformed_entry_dropped",
-		"probe_lin_checked", "probe_lin_ops"}
+		"probe_lin_checked", "probe_lin_ops",
+		"fault_ctx_cancel", "fault_scan_aborted_by_cancel", "fault_cancel_observed_by_ds", "probe_scan_entry_step", "probe_cancel_mid_scan", "probe_cancelled_call_failed", "probe_cancelled_call_completed",
+		"probe_query_after_cancelled_query"}
 	sim.Register(&sim.Scenario{Prop: "C07", Name: "provider-store", Weight: 3, Run: func(s *sim.Sim) { runC07(s, false) },
 		Real:   []string{"records.ProviderManager (NewProviderManager/AddProvider/GetProviders/gcLoop sweep/Close)", "records.providerSet", "hashicorp simplelru cache of 2-3 entries through the public Cache option", "pstoremem peerstore"},
 		Stub:   []string{"datastore (simds: every operation parks in the scheduler; crash = fork of everything applied)", "lock hand-over (instrumented sync.Mutex calls, scheduler-owned)", "GetProviders shuffle (identity, results compared as sets)"},
@@ -221,10 +245,11 @@ type c07Op struct {
 	tag    string
 
 	// handler scenario: the operation arrives as an RPC on a scripted stream
-	remote  bool
-	sender  int    // index of the sending peer
-	flavor  string // valid wrong-peer no-addr
-	mayFail bool   // an error outcome is not judged (refusal is expressed by a stream reset)
+	remote     bool
+	sender     int    // index of the sending peer
+	flavor     string // valid wrong-peer no-addr
+	identified bool   // the sender's addresses are put into the host's peerstore when it connects
+	mayFail    bool   // an error outcome is not judged (refusal is expressed by a stream reset)
 
 	mgr        *c07Mgr
 	started    bool
@@ -239,10 +264,69 @@ type c07Op struct {
 	got        []int
 	hop        *Op
 
+	// caller cancellation (store scenario): the call runs under a context the
+	// scheduler may cancel while it is in flight
+	cancellable bool
+	cancel      context.CancelFunc
+	cancelled   bool
+
 	// from the datastore log
 	puts    int
 	queries int
 	faulted bool
+}
+
+// c07IterDS hands the results of a scan over one entry per scheduler step for
+// the calls that ask for it through their context (the cancellable ones): each
+// NextSync parks (kind "ds", operation "next") before it delivers. The scan is
+// the snapshot the underlying simds query took; delivery never fails.
+type c07IterDS struct {
+	*simds.DS
+	s *sim.Sim
+	// abortOnCancel (opt-in, see c07CtxIter): the iterator honours the caller's
+	// context the way a database/sql-backed datastore does: once the context is
+	// done the scheduler may let a NextSync observe it, which then yields one
+	// Result carrying the context's error and ends the scan.
+	abortOnCancel bool
+}
+
+type c07IterKey struct{}
+
+func (w *c07IterDS) Query(ctx context.Context, q dsq.Query) (dsq.Results, error) {
+	res, err := w.DS.Query(ctx, q)
+	if err != nil || ctx == nil || ctx.Value(c07IterKey{}) == nil {
+		return res, err
+	}
+	it := &c07IterResults{Results: res, w: w, prefix: q.Prefix, label: w.DS.Name + ":next" + sim.TagOf(ctx)}
+	if w.abortOnCancel {
+		it.ctx = ctx
+	}
+	return it, nil
+}
+
+type c07IterResults struct {
+	dsq.Results
+	w       *c07IterDS
+	prefix  string
+	label   string
+	ctx     context.Context // non-nil: a parked NextSync may observe the cancellation
+	aborted bool
+}
+
+func (r *c07IterResults) NextSync() (dsq.Result, bool) {
+	d := r.w.DS
+	if r.aborted {
+		return dsq.Result{}, false
+	}
+	if d.ParkOp != nil && d.ParkOp("next", r.prefix) {
+		r.w.s.Count("probe_scan_entry_step")
+		if _, cerr := r.w.s.Park("ds", r.label, r.ctx, &simds.Op{DS: d, Op: "next", Key: r.prefix}); cerr != nil {
+			r.w.s.Count("fault_scan_aborted_by_cancel")
+			r.aborted = true
+			return dsq.Result{Error: cerr}, true
+		}
+	}
+	return r.Results.NextSync()
 }
 
 type c07Event struct { // documented sweep race, from the log
@@ -256,6 +340,15 @@ type c07KP struct{ k, p int }
 // direct per-operation rules so that a breaking change has to be caught by the
 // linearizability layer alone.
 var c07OnlyLin = os.Getenv("VERIF_C07_ONLY_LIN") != ""
+
+// c07CtxIter: additionally draw, per run, a datastore whose scan iterator
+// honours the caller's context (see c07IterDS.abortOnCancel: once the context
+// is done one Result{Error: ctx.Err()} is delivered and the scan ends, as
+// SQL-backed datastores do). Under it the snapshot tree cached the truncated
+// set of a cancelled query (findings/C07-aborted-scan-caches-truncated-set.json;
+// repaired in /repo: a set built from a scan that reported an error is served
+// but not cached). VERIF_C07_CTX_ITER=0 switches it off.
+var c07CtxIter = os.Getenv("VERIF_C07_CTX_ITER") != "0"
 
 func c07ParseTime(b []byte) (time.Time, bool) {
 	nsec, n := binary.Varint(b)
@@ -506,8 +599,16 @@ func (or *c07Oracle) judge(o *c07Op) {
 		}
 		return
 	}
+	if o.cancelled {
+		if o.err != nil {
+			s.Count("probe_cancelled_call_failed")
+		} else {
+			s.Count("probe_cancelled_call_completed")
+		}
+	}
 	if o.err != nil {
-		if !o.faulted && !o.mayFail {
+		abandoned := o.cancelled && errors.Is(o.err, context.Canceled)
+		if !o.faulted && !o.mayFail && !abandoned {
 			s.Violate(o.kind+"-error", "%s %s failed without an injected fault: %v", o.kind, o.tag, o.err)
 		}
 		if o.kind == "add" {
@@ -536,6 +637,12 @@ func (or *c07Oracle) judge(o *c07Op) {
 		}
 		if o.queries > 0 && len(o.got) > 0 {
 			s.Count("probe_miss_load")
+		}
+		for _, c := range or.ops {
+			if c.kind == "get" && c.cancelled && c.done && c.key == o.key && c.mgr == o.mgr && c.ret < o.call {
+				s.Count("probe_query_after_cancelled_query")
+				break
+			}
 		}
 		for p := 0; p < c07MaxPeers; p++ {
 			att := or.addAttempts(o.key, p, o.ret)
@@ -712,6 +819,7 @@ func runC07(s *sim.Sim, dsErrors bool) {
 	nClients := s.Range("clients", 1, 4)
 	nPhases := s.Range("phases", 1, 5)
 	plantGarbage := s.Chance("plant-garbage", 1, 3)
+	abortOnCancel := c07CtxIter && s.Chance("iterator-honours-ctx", 1, 2)
 	s.Summary["cfg"] = fmt.Sprintf("V=%v sweep=%v cache=%d keys=%d peers=%d clients=%d phases=%d yieldAll=%v garbage=%v dsErrors=%v",
 		V, I, cacheSize, nKeys, nPeers, nClients, nPhases, s.YieldSites["*"], plantGarbage, dsErrors)
 
@@ -745,7 +853,7 @@ func runC07(s *sim.Sim, dsErrors bool) {
 		if cerr != nil {
 			panic(cerr)
 		}
-		pm, perr := records.NewProviderManager(self, pstore, e.d,
+		pm, perr := records.NewProviderManager(self, pstore, &c07IterDS{DS: e.d, s: s, abortOnCancel: abortOnCancel},
 			records.Cache(cache), records.ProvideValidity(V), records.CleanupInterval(I), records.ProviderAddrTTL(time.Hour))
 		if perr != nil {
 			panic(perr)
@@ -775,6 +883,9 @@ func runC07(s *sim.Sim, dsErrors bool) {
 			}
 		}
 		ctx := sim.WithTag(context.Background(), o.tag)
+		if o.cancellable {
+			ctx, o.cancel = context.WithCancel(context.WithValue(ctx, c07IterKey{}, true))
+		}
 		o.hop = clients.Go(s, o.tag, func() (any, error) {
 			switch o.kind {
 			case "add":
@@ -877,15 +988,47 @@ func runC07(s *sim.Sim, dsErrors bool) {
 					continue // abandoned by a crash
 				}
 				acts = append(acts, sim.Action{ID: p.ID, Do: func() {
-					if dsErrors && s.Chance("ds-error", 1, 6) {
+					// (the hand-over of one scanned entry is not an operation that can fail)
+					if dsErrors && p.Data.(*simds.Op).Op != "next" && s.Chance("ds-error", 1, 6) {
 						s.Release(p, simds.ErrInjected)
 					} else {
 						s.Release(p, nil)
 					}
 				}})
 				if p.Cancelled() {
-					acts = append(acts, sim.Action{ID: "cancel>" + p.ID, Do: func() { s.ReleaseCancelled(p) }})
+					acts = append(acts, sim.Action{ID: "cancel>" + p.ID, Do: func() {
+						s.Count("fault_cancel_observed_by_ds")
+						if p.Data.(*simds.Op).Op == "next" {
+							// the scan of this call ends in a read error: like any call one of
+							// whose own datastore operations failed it may omit anything
+							if i, j := strings.LastIndex(p.ID, "@"), strings.LastIndex(p.ID, "#"); i >= 0 && j > i {
+								if o := or.byTag[p.ID[i+1:j]]; o != nil {
+									o.faulted = true
+								}
+							}
+						}
+						s.ReleaseCancelled(p)
+					}})
 				}
+			}
+			// caller cancellation: any quiescent point while the call is in flight
+			for _, o := range or.ops {
+				if !(o.cancellable && o.started && !o.done && !o.crashed && !o.cancelled && !(o.fin || (o.hop != nil && o.hop.Done))) {
+					continue
+				}
+				o := o
+				acts = append(acts, sim.Action{ID: "ctx-cancel:" + o.tag, Do: func() {
+					s.Count("fault_ctx_cancel")
+					// reached "the middle of a load": at least one entry of this call's
+					// scan was handed over and the call waits for a further NextSync
+					for _, p := range s.ParkedKind("ds") {
+						if op := p.Data.(*simds.Op); op.Op == "next" && strings.Contains(p.ID, ":next@"+o.tag+"#") && !strings.HasSuffix(p.ID, "#0") {
+							s.Count("probe_cancel_mid_scan")
+						}
+					}
+					o.cancelled = true
+					o.cancel()
+				}})
 			}
 			for _, a := range s.LockActions() {
 				if !zombie[a.ID] {
@@ -948,7 +1091,9 @@ func runC07(s *sim.Sim, dsErrors bool) {
 			if s.Draw("kind", 4) >= 2 {
 				kind = "get"
 			}
-			list = append(list, or.newOp(i%nClients, kind, s.Draw("key", nKeys), s.Draw("peer", nPeers)))
+			o := or.newOp(i%nClients, kind, s.Draw("key", nKeys), s.Draw("peer", nPeers))
+			o.cancellable = s.Chance("cancellable", 1, 4)
+			list = append(list, o)
 		}
 		s.Tracef("phase %d ops=%d", ph, n)
 		if closeAt >= 0 && nClients > 1 {
